@@ -301,7 +301,8 @@ class ParallelTempering:
         t2 = time()
 
         # number of cycles chosen to give a print-out roughly every 2 seconds
-        N = max(1, int(2.0 / (t2 - t1)))
+        # (the clock may not have moved between the two readings if it is coarse)
+        N = max(1, int(2.0 / (t2 - t1))) if t2 > t1 else 1
 
         while time() < end_time:
             for i in range(N):
